@@ -35,7 +35,7 @@ from vlib.runner import main
 VERIF_ROOT = __import__("os").path.dirname(__import__("os").path.dirname(__import__("os").path.abspath(__file__)))
 PROPERTY = "C17"
 STUBS = [
-    "stdlib random module functions -> SymRng draws (fresh solver variable per call); explicit random.Random(seed) instances stay real",
+    "stdlib random module functions -> SymRng draws (a fresh solver variable per call: integers / positions symbolic; random(), uniform(), gauss(), expovariate() a solver-chosen member of a 3-4 point grid, so that the value survives math.log / float(); after the first 4 draws of a path the remaining draws come from one of 4 ordinary pseudo-random streams, the stream being solver-chosen); explicit random.Random(seed) instances stay real",
     "numpy.random global functions -> tripwire",
     "set/frozenset names in cotengra.{core,slicer,hypergraph,utils,pathfinders.path_basic,pathfinders.path_simulated_annealing,pathfinders.path_labels} -> NDSet: sets containing str iterate in a solver-chosen order",
 ]
@@ -55,6 +55,21 @@ def base_tree():
 
     ssa = [(0, 1), (6, 2), (7, 3), (8, 4), (9, 5)]
     return ContractionTree.from_path(INPUTS, OUTPUT, SIZE, ssa_path=ssa)
+
+
+# a larger network and a deliberately poor (balanced, input-order) starting tree: many different improvements are possible,
+# so a draw taken from the wrong generator changes the RESULT, not merely the route to it
+BIG_INPUTS = ("ej", "dg", "bcdh", "ae", "afgil", "bijk", "cfl", "hk")
+BIG_OUTPUT = ""
+BIG_SIZE = {"a": 2, "b": 3, "c": 2, "d": 2, "e": 3, "f": 2, "g": 2, "h": 3, "i": 2, "j": 2, "k": 2, "l": 3}
+
+
+def big_tree():
+    from cotengra.core import ContractionTree
+
+    # balanced: which subtree a random expansion reaches really depends on the draws
+    ssa = [(0, 1), (2, 3), (4, 5), (6, 7), (8, 9), (10, 11), (12, 13)]
+    return ContractionTree.from_path(BIG_INPUTS, BIG_OUTPUT, BIG_SIZE, ssa_path=ssa)
 
 
 def canon_tree(t):
@@ -119,6 +134,29 @@ def apis():
         "make_rand_size_dict_from_inputs": lambda s: U.make_rand_size_dict_from_inputs(INPUTS, seed=s),
         "make_arrays_from_inputs": lambda s: U.make_arrays_from_inputs(INPUTS, SIZE, seed=s),
         "jitter_dict": lambda s: __import__("cotengra.core", fromlist=["x"]).jitter_dict(SIZE, 0.1, s),
+        # --- the larger network, one improvement step at a time, non-default modes
+        "subtree_reconfigure[big,select=random,search=random,1 step]": lambda s: big_tree().subtree_reconfigure(subtree_size=3, select="random", subtree_search="random", maxiter=1, seed=s),
+        "subtree_reconfigure[big,select=max,search=random]": lambda s: big_tree().subtree_reconfigure(subtree_size=3, select="max", subtree_search="random", maxiter=2, seed=s),
+        "subtree_reconfigure[big,select=random,search=bfs]": lambda s: big_tree().subtree_reconfigure(subtree_size=4, select="random", subtree_search="bfs", maxiter=1, seed=s),
+        "subtree_reconfigure_forest[big,search=random]": lambda s: big_tree().subtree_reconfigure_forest(num_trees=2, num_restarts=1, subtree_maxiter=1, subtree_size=3, subtree_search=("random",), parallel=False, seed=s),
+        "subtree_reconfigure_forest[big,defaults]": lambda s: big_tree().subtree_reconfigure_forest(num_trees=2, num_restarts=2, subtree_maxiter=1, subtree_size=3, parallel=False, seed=s),
+        "simulated_anneal[big,basic]": lambda s: big_tree().simulated_anneal(tsteps=2, numiter=2, target_size=16, slice_mode="basic", seed=s),
+        "simulated_anneal[big,reslice]": lambda s: big_tree().simulated_anneal(tsteps=2, numiter=2, target_size=16, slice_mode="reslice", seed=s),
+        "simulated_anneal[big,drift]": lambda s: big_tree().simulated_anneal(tsteps=2, numiter=2, target_size=16, slice_mode="drift", seed=s),
+        "simulated_anneal[big,unslice=1]": lambda s: big_tree().simulated_anneal(tsteps=2, numiter=2, target_size=16, slice_mode=1, seed=s),
+        "parallel_temper[big,reslice]": lambda s: big_tree().parallel_temper(tsteps=1, num_trees=2, numiter=1, target_size=16, slice_mode="reslice", parallel=False, seed=s),
+        "parallel_temper[big,basic,time]": lambda s: big_tree().parallel_temper(tsteps=2, num_trees=2, numiter=1, target_size=16, slice_mode="basic", parallel_slice_mode="time", parallel=False, seed=s),
+        "parallel_temper[big,drift,constant]": lambda s: big_tree().parallel_temper(tsteps=1, num_trees=3, numiter=1, target_size=16, slice_mode="drift", parallel_slice_mode="constant", parallel=False, seed=s),
+        "tree.slice[big,reslice]": lambda s: big_tree().slice(target_size=32, seed=s).slice(target_size=8, reslice=True, seed=s),
+        "tree.slice[big,target_overhead]": lambda s: big_tree().slice(target_overhead=1.5, temperature=0.5, seed=s),
+        "SliceFinder.search[big,temperature]": lambda s: sorted(SliceFinder(big_tree(), target_size=16, temperature=0.3, seed=s).search(4)[0]),
+        "RandomGreedyOptimizer[big]": lambda s: PB.RandomGreedyOptimizer(max_repeats=4, temperature=0.5, seed=s, accel=False, parallel=False)(BIG_INPUTS, BIG_OUTPUT, BIG_SIZE),
+        "RandomOptimizer[big]": lambda s: RandomOptimizer(seed=s)(BIG_INPUTS, BIG_OUTPUT, BIG_SIZE),
+        "build_divide[big]": lambda s: PartitionTreeBuilder(labels_partition).build_divide(BIG_INPUTS, BIG_OUTPUT, BIG_SIZE, cutoff=3, parts=2, seed=s),
+        "build_agglom[big]": lambda s: PartitionTreeBuilder(labels_partition).build_agglom(BIG_INPUTS, BIG_OUTPUT, BIG_SIZE, groupsize=3, seed=s),
+        "GreedyCompressed[temperature]": lambda s: __import__("cotengra.pathfinders.path_compressed_greedy", fromlist=["x"]).GreedyCompressed(chi=4, temperature=0.5, seed=s).get_ssa_path(list(BIG_INPUTS), BIG_OUTPUT, BIG_SIZE),
+        "GreedySpan[temperature]": lambda s: __import__("cotengra.pathfinders.path_compressed_greedy", fromlist=["x"]).GreedySpan(temperature=0.5, seed=s).get_ssa_path(list(BIG_INPUTS), BIG_OUTPUT, BIG_SIZE),
+        "make_arrays_from_eq": lambda s: U.make_arrays_from_eq("ab,bc->ac", seed=s),
     }
 
 
@@ -155,7 +193,7 @@ _NP_FUNCS = ["rand", "randn", "randint", "random", "random_sample", "choice", "s
 
 @contextlib.contextmanager
 def symbolic_globals():
-    g = stubs.SymRng("glob")
+    g = stubs.SymRng("glob", uniform_mode="grid", random_mode="grid", free_draws=4)
     saved = {f: getattr(random, f) for f in _RANDOM_FUNCS if hasattr(random, f)}
     saved_np = {f: getattr(np.random, f) for f in _NP_FUNCS if hasattr(np.random, f)}
 
@@ -357,8 +395,8 @@ def replay(v):
     PYTHONHASHSEED values, same explicit seed."""
     name, seed = v["api"], v["seed"]
     outs = []
-    for gseed, hseed in ((1, "1"), (2, "2"), (3, "77"), (4, "4242")):
-        env = dict(os.environ, PYTHONHASHSEED=hseed, PYTHONPATH=VERIF_ROOT, VERIF_ROOT=VERIF_ROOT)
+    for gseed, hseed in ((1, "1"), (2, "2"), (3, "77"), (4, "4242"), (5, "5"), (6, "606"), (7, "7"), (8, "80808")):
+        env = dict(os.environ, PYTHONHASHSEED=hseed, PYTHONPATH=os.pathsep.join([VERIF_ROOT] + [x for x in os.environ.get("PYTHONPATH", "").split(os.pathsep) if x]), VERIF_ROOT=VERIF_ROOT)
         p = subprocess.run([sys.executable, "-W", "ignore", "-c", _CHILD, name, str(seed), str(gseed)], capture_output=True, text=True, env=env, timeout=300)
         if p.returncode != 0:
             return False, f"child failed: {p.stderr[-300:]}"
@@ -367,8 +405,8 @@ def replay(v):
             return True, f"{name}(seed={seed}) returned different results when called twice in one process (global random state {gseed}): {str(r[0])[:120]} vs {str(r[1])[:120]}"
         outs.append(json.dumps(r[0]))
     if len(set(outs)) > 1:
-        return True, f"{name}(seed={seed}) returned {len(set(outs))} different results across 4 processes that differ only in the global random state / PYTHONHASHSEED: {outs[0][:120]} vs {[o for o in outs if o != outs[0]][0][:120]}"
-    return False, "identical in 4 processes with different global random state and hash seeds"
+        return True, f"{name}(seed={seed}) returned {len(set(outs))} different results across 8 processes that differ only in the global random state / PYTHONHASHSEED: {outs[0][:120]} vs {[o for o in outs if o != outs[0]][0][:120]}"
+    return False, "identical in 8 processes with different global random state and hash seeds"
 
 
 if __name__ == "__main__":
